@@ -27,7 +27,10 @@ pub fn oracle(case: &ProgCase, index: u64, ctx: &mut Ctx) {
     let mut accepted = false;
     for parens in [Parens::Minimal, Parens::Full, Parens::Redundant] {
         let toks = print_program(&case.stmts, parens);
-        for sep in [" ", ""] {
+        // comments in every gap (with the minimal parentheses only): an accessor that takes
+        // "the first token" must not take a comment
+        let seps: &[&'static str] = if parens == Parens::Minimal { &[" ", "", "/*c*/", "//c\n"] } else { &[" ", ""] };
+        for sep in seps.iter().copied() {
             let text = layout_uniform(&toks, sep);
             let p = match subject::parse(&text) {
                 Ok(p) => p,
